@@ -484,12 +484,17 @@ theorem hopsOfSegs_runSegs : ∀ (ss : List Seg), (∀ s ∈ ss, s.isRunSeg) →
     simp only [hopsOfSegs] at ih
     simp [hopsOfSegs, hopsOfSeg, h1, h3, ih]
 
-/-! ### hop paths that the public API can build -/
+/-! ### the hop paths of the property's quantifier ("over ASNs, AS_SETs and confederation segments")
 
-/-- a `Hop::Segment` reachable through the public API: built by
-`Segment::new_set / new_confed_sequence / new_confed_set`, or cut out of a
-checked wire path by `to_hop_path` (then an AS_SEQUENCE segment is empty);
-ASNs fit the segment's width; at most 255 ASNs (the exclusion of K2). -/
+NOT all the public API can build: a non-empty AS_SEQUENCE held as one
+`Hop::Segment` (`From<Vec<Segment>> for HopPath`, `append(Hop::Segment(..))` of
+a segment cut out of a wire path) is excluded here and admitted by `WfHopsG`
+further down, under which the validity / two-octet / no-panic facts are proved. -/
+
+/-- a `Hop::Segment` as `Segment::new_set / new_confed_sequence /
+new_confed_set` build it or as `to_hop_path` yields it (an AS_SEQUENCE-typed
+segment hop is then empty); ASNs fit the segment's width; at most 255 ASNs (the
+exclusion of K2). -/
 def Seg.apiOk (s : Seg) : Bool :=
   (s.ty == 1 || s.ty == 3 || s.ty == 4 || (s.ty == 2 && s.asns.isEmpty)) &&
     decide (s.asns.length ≤ 255) && s.asns.all (fun a => decide (a < asnBound s.four))
@@ -498,7 +503,8 @@ def Hop.wf : Hop → Bool
   | .asn n => decide (n < 4294967296)
   | .seg s => s.apiOk
 
-/-- well-formed hop path (decidable) -/
+/-- hop path over ASNs, AS_SETs, confederation segments and empty AS_SEQUENCEs
+(decidable); narrower than "API-buildable", see `WfHopsG` -/
 def WfHops (h : HopPath) : Bool := h.all Hop.wf
 
 /-- the hop with its segment re-read from a four-octet wire path -/
@@ -620,10 +626,11 @@ theorem segsLoop_spec (b : Bool) : ∀ (f : Nat) (h : List Hop), h.length ≤ f 
         · simp only [List.flatMap_append, List.flatMap_cons, r2, i3]
           simp [asnsOf, hopAsns, flatMap_hopAsns_run]
 
-/-! ### arbitrary hop paths (also those no public constructor builds) -/
+/-! ### every hop path the public API can build (minus K2) -/
 
 /-- any segment hop that has a wire form: type 1..4 (an AS_SEQUENCE-typed segment
-hop may hold ASNs), at most 255 ASNs, ASNs fit the width -/
+hop may hold ASNs: `AsPath::segments()` + `octets_into` + `Hop::Segment`), at
+most 255 ASNs, ASNs fit the width -/
 def Seg.anyOk (s : Seg) : Bool :=
   decide (1 ≤ s.ty) && decide (s.ty ≤ 4) && decide (s.asns.length ≤ 255) &&
     s.asns.all (fun a => decide (a < asnBound s.four))
@@ -961,5 +968,304 @@ theorem compose_read (h : HopPath) (wf : WfHops h = true) :
     exact ⟨a3, a1, a2⟩
   · rw [← c6, flatMap_asns_setFour]
   · simp [hops, hseg, c5 true]
+
+/-! ### every hop path the public API can build: the general form of `compose_spec`
+
+`WfHopsG` admits every segment hop that has a wire form – also a non-empty
+AS_SEQUENCE held as one `Hop::Segment` (`From<Vec<Segment>> for HopPath`,
+`Hop::Segment(seg)` + `append`) and two-octet segment hops cut out of a
+two-octet wire path. What is read back from the wire is then the *flat* hop
+sequence `flat b h`. -/
+
+/-- the AS numbers the loop writes are those of the hop path, whatever the hops -/
+theorem segsLoop_asns : ∀ (f : Nat) (h : List Hop), h.length ≤ f →
+    (segsLoop f h).flatMap (·.asns) = asnsOf h
+  | 0, h, hf => by
+    have : h = [] := List.eq_nil_of_length_eq_zero (by omega)
+    subst this; simp [segsLoop, asnsOf]
+  | f + 1, h, hf => by
+    unfold segsLoop
+    by_cases he : h.isEmpty = true
+    · have : h = [] := by simpa using he
+      subst this; simp [asnsOf]
+    · simp only [he, Bool.false_eq_true, if_false]
+      obtain ⟨hsplit, hns⟩ := spanAsns_spec h
+      generalize (spanAsns h).1 = run at *
+      generalize (spanAsns h).2 = tl at *
+      subst hsplit
+      obtain ⟨_, r2⟩ := runSegs_spec run
+      match tl, hns with
+      | [], _ =>
+        simp only [List.append_nil]
+        rw [r2]; simp [asnsOf, flatMap_hopAsns_run]
+      | .asn n :: r, hns => exact absurd rfl (hns n r)
+      | .seg s :: rest, _ =>
+        have hlen : rest.length ≤ f := by simp at hf; omega
+        have i3 := segsLoop_asns f rest hlen
+        simp only [List.flatMap_append, List.flatMap_cons, r2, i3]
+        simp [asnsOf, hopAsns, flatMap_hopAsns_run]
+
+/-- Everything the two compose loops do on any hop path whose segment hops have
+a wire form, in terms of one segment list `ss`. -/
+theorem compose_specG (h : HopPath) (wf : WfHopsG h = true) :
+    ∃ ss : List Seg,
+      compose true h = .ok (encSegs true ss) ∧
+      compose false h = (if allSmall (asnsOf h) = true then .ok (encSegs false ss) else .err) ∧
+      (∀ s ∈ ss, s.wireOk true = true) ∧
+      (allSmall (asnsOf h) = true → ∀ s ∈ ss, s.wireOk false = true) ∧
+      (∀ b, hopsOfSegs (ss.map (Seg.setFour b)) = flat b h) ∧
+      ss.flatMap (·.asns) = asnsOf h := by
+  have s3 := segsLoop_asns h.length h (Nat.le_refl _)
+  have s1 := (segsLoop_flat true h.length h (Nat.le_refl _) wf).1
+  refine ⟨segsLoop h.length h, ?_, ?_, ?_, ?_, ?_, s3⟩
+  · rw [compose, composeLoop_eq, composeSegs_wide _ (fun s hs => (s1 s hs).2.2.1)]
+  · rw [compose, composeLoop_eq, composeSegs_narrow _ (fun s hs => (s1 s hs).2.2.1), segsSmall_iff, s3]
+    intro s hs hf a ha
+    have := (s1 s hs).2.2.2 a ha
+    simpa [hf, asnBound] using this
+  · intro s hs
+    obtain ⟨a1, a2, a3, a4⟩ := s1 s hs
+    refine Seg.wireOk_iff.mpr ⟨a1, a2, a3, fun a ha => ?_⟩
+    have := a4 a ha
+    have := asnBound_le s.four
+    simp only [asnBound, if_true]; omega
+  · intro hsm s hs
+    obtain ⟨a1, a2, a3, _⟩ := s1 s hs
+    refine Seg.wireOk_iff.mpr ⟨a1, a2, a3, fun a ha => ?_⟩
+    have hm : a ∈ asnsOf h := by rw [← s3]; exact List.mem_flatMap.mpr ⟨s, hs, ha⟩
+    have := (List.all_eq_true.mp hsm) a hm
+    simp only [decide_eq_true_eq] at this
+    simp only [asnBound, Bool.false_eq_true, if_false]; omega
+  · intro b
+    exact (segsLoop_flat b h.length h (Nat.le_refl _) wf).2
+
+/-- what `compose` does on any such hop path, read back from the wire -/
+theorem compose_readG (h : HopPath) (wf : WfHopsG h = true) :
+    ∃ (w : Bytes) (ss : List Seg), compose true h = .ok w ∧ check true w = .ok () ∧
+      segments true w = .ok ss ∧ (∀ s ∈ ss, s.asns.length ≤ 255 ∧ 1 ≤ s.ty ∧ s.ty ≤ 4) ∧
+      ss.flatMap (·.asns) = asnsOf h ∧ hops true w = .ok (flat true h) := by
+  obtain ⟨ss, c1, _, c3, _, c5, c6⟩ := compose_specG h wf
+  have hseg := segments_enc true ss c3
+  refine ⟨encSegs true ss, ss.map (Seg.setFour true), c1, check_enc true ss c3, hseg, ?_, ?_, ?_⟩
+  · intro s hs
+    obtain ⟨t, ht, rfl⟩ := List.mem_map.mp hs
+    obtain ⟨a1, a2, a3, _⟩ := Seg.wireOk_iff.mp (c3 t ht)
+    exact ⟨a3, a1, a2⟩
+  · rw [← c6, flatMap_asns_setFour]
+  · simp [hops, hseg, c5 true]
+
+/-! ### the flat hop sequence is a normal form -/
+
+theorem hopFlat_normal (b : Bool) (x : Hop) : ∀ y ∈ Hop.flat b x, Hop.flat b y = [y] := by
+  cases x with
+  | asn n =>
+    intro y hy
+    simp only [Hop.flat, List.mem_singleton] at hy
+    subst hy; rfl
+  | seg s =>
+    intro y hy
+    simp only [Hop.flat, hopsOfSeg] at hy
+    split at hy
+    · obtain ⟨a, _, rfl⟩ := List.mem_map.mp hy; rfl
+    · rename_i hc
+      simp only [List.mem_singleton] at hy
+      subst hy
+      have e : (s.setFour b).setFour b = s.setFour b := rfl
+      simp only [Hop.flat, hopsOfSeg, e, hc, if_false]
+
+theorem flat_of_normal (b : Bool) : ∀ (l : List Hop), (∀ y ∈ l, Hop.flat b y = [y]) → flat b l = l
+  | [], _ => rfl
+  | y :: r, h => by
+    have ih := flat_of_normal b r (fun z hz => h z (by simp [hz]))
+    simp only [flat, List.flatMap_cons] at ih ⊢
+    rw [ih, h y (by simp)]; rfl
+
+/-- flattening twice is flattening once -/
+theorem flat_idem (b : Bool) (h : HopPath) : flat b (flat b h) = flat b h := by
+  apply flat_of_normal
+  intro y hy
+  simp only [flat, List.mem_flatMap] at hy
+  obtain ⟨x, _, hx⟩ := hy
+  exact hopFlat_normal b x y hx
+
+/-- the flat hop sequence of any API-buildable hop path is a hop path over
+`Hop::Asn`s, AS_SETs, confederation segments and empty AS_SEQUENCEs, every
+segment hop stored four octets wide. -/
+theorem wfHops_flat (h : HopPath) (wf : WfHopsG h = true) :
+    WfHops (flat true h) = true ∧ AllFour (flat true h) = true := by
+  have key : ∀ x ∈ h, ∀ y ∈ Hop.flat true x, Hop.wf y = true ∧
+      (match y with | .asn _ => true | .seg s => s.four) = true := by
+    intro x hx y hy
+    have hw := (List.all_eq_true.mp wf) x hx
+    cases x with
+    | asn n =>
+      simp only [Hop.flat, List.mem_singleton] at hy
+      subst hy
+      exact ⟨by simpa [Hop.wf, Hop.wfG] using hw, rfl⟩
+    | seg s =>
+      obtain ⟨a1, a2, a3, a4⟩ := Seg.anyOk_iff.mp (by simpa [Hop.wfG] using hw)
+      have hb := asnBound_le s.four
+      simp only [Hop.flat, hopsOfSeg] at hy
+      split at hy
+      · obtain ⟨a, ha, rfl⟩ := List.mem_map.mp hy
+        have := a4 a ha
+        exact ⟨by simp only [Hop.wf, decide_eq_true_eq]; omega, rfl⟩
+      · rename_i hc
+        simp only [List.mem_singleton] at hy
+        subst hy
+        refine ⟨?_, rfl⟩
+        simp only [Hop.wf]
+        refine Seg.apiOk_iff.mpr ⟨?_, a3, ?_⟩
+        · have hc' : ¬ (s.ty = 2 ∧ s.asns ≠ []) := hc
+          by_cases h2 : s.ty = 2
+          · right; right; right
+            exact ⟨h2, Classical.not_not.mp (fun hne => hc' ⟨h2, hne⟩)⟩
+          · show s.ty = 1 ∨ s.ty = 3 ∨ s.ty = 4 ∨ _
+            omega
+        · intro a ha
+          have := a4 a ha
+          show a < asnBound true
+          simp only [asnBound, if_true]; omega
+  constructor
+  · simp only [WfHops, flat, List.all_eq_true, List.mem_flatMap]
+    rintro y ⟨x, hx, hy⟩
+    exact (key x hx y hy).1
+  · simp only [AllFour, flat, List.all_eq_true, List.mem_flatMap]
+    rintro y ⟨x, hx, hy⟩
+    exact (key x hx y hy).2
+
+/-- a hop path is its own flat sequence exactly when it has no non-empty
+AS_SEQUENCE segment hop and every segment hop is four octets wide. -/
+theorem flat_eq_self_iff (h : HopPath) (wf : WfHopsG h = true) :
+    flat true h = h ↔ (WfHops h = true ∧ AllFour h = true) := by
+  constructor
+  · intro e
+    have := wfHops_flat h wf
+    rwa [e] at this
+  · rintro ⟨w, a⟩
+    rw [flat_of_wfHops true h w, map_norm_allFour h a]
+
+/-! ### path-selection hop count -/
+
+/-- what one hop contributes to `hop_count_path_selection` -/
+def selOf : Hop → Nat
+  | .asn _ => 1
+  | .seg s => if s.ty = 1 then 1 else if s.ty = 2 then s.asns.length else 0
+
+/-- what one wire segment contributes: an AS_SEQUENCE its ASNs, an AS_SET one,
+confederation segments nothing -/
+def segSel (s : Seg) : Nat := if s.ty = 1 then 1 else if s.ty = 2 then s.asns.length else 0
+
+theorem foldl_selStep (l : HopPath) : ∀ acc : Nat, l.foldl selStep acc = acc + (l.map selOf).sum := by
+  induction l with
+  | nil => intro acc; simp
+  | cons x r ih =>
+    intro acc
+    simp only [List.foldl_cons, ih, List.map_cons, List.sum_cons]
+    cases x with
+    | asn n => simp only [selStep, selOf]; omega
+    | seg s =>
+      simp only [selStep, selOf]
+      by_cases h1 : s.ty = 1
+      · simp only [h1, if_true]; omega
+      · by_cases h2 : s.ty = 2
+        · simp only [h2]; simp; omega
+        · simp only [h1, h2, if_false]; omega
+
+theorem hopCountSel_eq (h : HopPath) : hopCountSel h = (h.map selOf).sum := by
+  simp [hopCountSel, foldl_selStep]
+
+theorem sum_map_asn (as : List Nat) : ((as.map Hop.asn).map selOf).sum = as.length := by
+  induction as with
+  | nil => rfl
+  | cons a r ih => simp only [List.map_cons, List.sum_cons, ih, selOf, List.length_cons]; omega
+
+theorem sum_selOf_hopsOfSeg (s : Seg) : ((hopsOfSeg s).map selOf).sum = segSel s := by
+  unfold hopsOfSeg
+  split
+  · rename_i hc
+    rw [sum_map_asn]
+    simp [segSel, hc.1]
+  · simp [selOf, segSel]
+
+theorem sum_selOf_append (a b : List Hop) :
+    ((a ++ b).map selOf).sum = (a.map selOf).sum + (b.map selOf).sum := by
+  induction a with
+  | nil => simp
+  | cons x r ih => simp only [List.cons_append, List.map_cons, List.sum_cons, ih]; omega
+
+/-- on the hops of a wire path the count is: ASNs of AS_SEQUENCEs + number of AS_SETs -/
+theorem hopCountSel_hopsOfSegs (ss : List Seg) :
+    hopCountSel (hopsOfSegs ss) = (ss.map segSel).sum := by
+  rw [hopCountSel_eq]
+  induction ss with
+  | nil => rfl
+  | cons s r ih =>
+    have : hopsOfSegs (s :: r) = hopsOfSeg s ++ hopsOfSegs r := by simp [hopsOfSegs]
+    rw [this, sum_selOf_append, sum_selOf_hopsOfSeg, ih]
+    simp
+
+/-- a hop path and its flat hop sequence have the same path-selection count -/
+theorem hopCountSel_flat (b : Bool) (h : HopPath) : hopCountSel (flat b h) = hopCountSel h := by
+  rw [hopCountSel_eq, hopCountSel_eq]
+  induction h with
+  | nil => rfl
+  | cons x r ih =>
+    have : flat b (x :: r) = Hop.flat b x ++ flat b r := by simp [flat]
+    rw [this, sum_selOf_append, ih]
+    simp only [List.map_cons, List.sum_cons]
+    congr 1
+    cases x with
+    | asn n => rfl
+    | seg s =>
+      simp only [Hop.flat, sum_selOf_hopsOfSeg]
+      rfl
+
+
+/-! ### `Eq` / `Hash` of hop paths -/
+
+theorem Seg.hashKey_eq (s : Seg) (hl : s.asns.length ≤ 255) : s.hashKey = .ok s.hashWrites := by
+  simp [Seg.hashKey, u8Expect, hl, Seg.hashWrites, ofNat_toNat_small hl]
+
+def Hop.lenOk : Hop → Bool
+  | .asn _ => true
+  | .seg s => decide (s.asns.length ≤ 255)
+
+theorem hopEq_hashKey {x y : Hop} (he : hopEq x y = true) (hx : x.lenOk = true) (hy : y.lenOk = true) :
+    ∃ k, x.hashKey = .ok k ∧ y.hashKey = .ok k := by
+  cases x with
+  | asn a =>
+    cases y with
+    | asn b =>
+      have : a = b := by simpa [hopEq] using he
+      subst this; exact ⟨_, rfl, rfl⟩
+    | seg t => simp [hopEq] at he
+  | seg s =>
+    cases y with
+    | asn b => simp [hopEq] at he
+    | seg t =>
+      have hs : s.asns.length ≤ 255 := by simpa [Hop.lenOk] using hx
+      have ht : t.asns.length ≤ 255 := by simpa [Hop.lenOk] using hy
+      have hsem : s.sem = t.sem := by
+        have : segEq s t = true := by simpa [hopEq] using he
+        rw [segEq_eq] at this
+        exact of_decide_eq_true this
+      refine ⟨HW.u8 1 :: t.hashWrites, ?_, ?_⟩
+      · simp [Hop.hashKey, Seg.hashKey_eq s hs, hashWrites_sem hsem]
+      · simp [Hop.hashKey, Seg.hashKey_eq t ht]
+
+theorem hopPathEq_hops : ∀ (h k : List Hop), hopPathEq h k = true →
+    h.all Hop.lenOk = true → k.all Hop.lenOk = true →
+    h.length = k.length ∧ ∃ key, hopsHashKey h = .ok key ∧ hopsHashKey k = .ok key
+  | [], [], _, _, _ => ⟨rfl, [], rfl, rfl⟩
+  | [], _ :: _, he, _, _ => by simp [hopPathEq] at he
+  | _ :: _, [], he, _, _ => by simp [hopPathEq] at he
+  | x :: xs, y :: ys, he, hx, hy => by
+    simp only [hopPathEq, Bool.and_eq_true] at he
+    simp only [List.all_cons, Bool.and_eq_true] at hx hy
+    obtain ⟨k1, a1, a2⟩ := hopEq_hashKey he.1 hx.1 hy.1
+    obtain ⟨hl, k2, b1, b2⟩ := hopPathEq_hops xs ys he.2 hx.2 hy.2
+    exact ⟨by simp [hl], k1 ++ k2, by simp [hopsHashKey, a1, b1], by simp [hopsHashKey, a2, b2]⟩
+
 
 end Rc.AsPath
